@@ -211,7 +211,7 @@ def compactShard (c : Codec) (e : Engine) (s : String) : R :=
       if filtered.isEmpty then
         (setShard e1 s { sh with batches := [], diskBatches := [], diskUpper := sh.upper }, none)
       else match c.batch filtered with
-        | .error k => (setShard e1 s { sh with batches := [] }, some k)   -- `drain(..)` ran before the write
+        | .error k => (e1, some k)                        -- the write comes first: nothing was changed
         | .ok b =>
           let up := max sh.upper (upperOf filtered)
           (setShard e1 s { sh with batches := [b], upper := up, diskBatches := [b], diskUpper := up }, none)
@@ -264,8 +264,14 @@ def insertCore (c : Codec) (e : Engine) (rel : String) (ts : List Tuple) : Engin
         let r := insertLoop ((aget e2.live rel).getD []) 0 0 ts
         ({ e2 with live := aset e2.live rel r.1, arity := aset e2.arity rel ar }, .ok (r.2.1, r.2.2))
 
-/-- `delete_tuples_from` (mod.rs:572): no arity check; `Ok(deleted_count)` / `Err(kind)`. -/
-def deleteCore (c : Codec) (e : Engine) (rel : String) (ts : List Tuple) : Engine × Except String Nat :=
+/-- the tuples a delete request can concern: those of the relation's arity; none for an unknown relation. -/
+def deletable (arity : List (String × Nat)) (rel : String) (ts : List Tuple) : List Tuple :=
+  match aget arity rel with
+  | some a => ts.filter (fun t => t.length == a)
+  | none => []
+
+/-- the body of `delete_tuples_from` after the arity filter: persist one `-1` per tuple, then apply. -/
+def deleteCoreRaw (c : Codec) (e : Engine) (rel : String) (ts : List Tuple) : Engine × Except String Nat :=
   match ts with
   | [] => (e, .ok 0)
   | _ :: _ =>
@@ -282,6 +288,11 @@ def deleteCore (c : Codec) (e : Engine) (rel : String) (ts : List Tuple) : Engin
         if n > 0 then
           ({ e2 with live := aset e2.live rel l, arity := aset e2.arity rel ((aget e2.arity rel).getD 2) }, .ok n)
         else ({ e2 with live := aset e2.live rel l }, .ok n)
+
+/-- `delete_tuples_from`: tuples of another arity (or of an unknown relation) are skipped before
+    anything is persisted; `Ok(deleted_count)` / `Err(kind)`. -/
+def deleteCore (c : Codec) (e : Engine) (rel : String) (ts : List Tuple) : Engine × Except String Nat :=
+  deleteCoreRaw c e rel (deletable e.arity rel ts)
 
 /-- the harness's rendering of the two results. -/
 def renderIns : Except String (Nat × Nat) → String
@@ -344,9 +355,16 @@ def reopenPersist (c : Codec) (e : Engine) : R :=
 
 /-- `load_all_knowledge_graphs` (storage_engine/mod.rs:1653): every shard is read, consolidated to the
     current state, and the positive tuples become the relation (non-empty relations only). -/
+def shardArity (sh : Shard) : Option Nat :=
+  match recoverRel sh with
+  | t :: _ => some t.length                              -- "infer schema from first tuple"
+  | [] => (readShard sh).head?.map (fun u => u.data.length)   -- emptied relation: arity of the logged tuples
+
 def loadKgs (e : Engine) : Engine :=
   let rels := (e.shards.map (fun p => (p.1, recoverRel p.2))).filter (fun p => !p.2.isEmpty)
-  { e with live := rels, arity := rels.map (fun p => (p.1, (p.2.headD []).length)), time := maxUpper e.shards + 1 }
+  { e with live := rels,
+           arity := e.shards.filterMap (fun p => (shardArity p.2).map (fun a => (p.1, a))),
+           time := maxUpper e.shards + 1 }
 
 /-- drop the engine and run `StorageEngine::new` on the same directory. -/
 def restart (c : Codec) (e : Engine) : R :=
